@@ -76,3 +76,75 @@ Print Assumptions C08_stim_same_listing_identical.
 Print Assumptions C08_detector_targets_spec.
 Print Assumptions C08_observable_target_spec.
 Print Assumptions C08_observable_untargeted_spec.
+
+(* ---- bridge to the Core model (Bridge/TreeOfOp.v, Bridge/Proofs.v): the tree the exporter walks is computed from the Core
+   circuit (`tree_of_nodes`: children in `bfs (parents ns)` order, class index -> kind through the generated class NAMES,
+   `args_of` = any assignment of the annotation classes' integer arguments to leaves); `unroll_small_prog` is C06's size
+   bound (every command list times its block's count <= 4999 entries, counts >= 1) *)
+From QCE Require Import Core.Model Core.BfsWf Core.UnrollProofs C06.Proofs Bridge.TreeOfOp Bridge.Proofs.
+From Gen Require Import Classes.
+
+(* exporting before or after unrolling repetitions gives the same multiset of instructions (REPEAT unrolled, fused targets
+   split) and the same number of measurements *)
+Theorem C08_unroll_export_same_multiset : forall (args_of : Core.Model.leaf -> list (option Z)) env p c1 c2,
+  unroll_small_prog p ->
+  to_stim (tree_of_nodes args_of (run_prog env p)) = Some c1 ->
+  to_stim (tree_of_nodes args_of (apply_modifiers env 1 (run_prog env p))) = Some c2 ->
+  Permutation (C08.Model.flat c1) (C08.Model.flat c2) /\ nmeas c1 = nmeas c2.
+Proof. exact unroll_export_same_multiset. Qed.
+
+(* the same for any well-formed circuit given as a graph (library-built circuits) *)
+Theorem C08_unroll_export_same_multiset_graph : forall (args_of : Core.Model.leaf -> list (option Z)) env ns c1 c2,
+  wf_op (OComp 1 ns) -> rsize_ok (OComp 1 ns) ->
+  to_stim (tree_of_nodes args_of ns) = Some c1 ->
+  to_stim (tree_of_nodes args_of (apply_modifiers env 1 ns)) = Some c2 ->
+  Permutation (C08.Model.flat c1) (C08.Model.flat c2) /\ nmeas c1 = nmeas c2.
+Proof. exact unroll_export_same_multiset_graph. Qed.
+
+(* the premise of C08_stim_perm_multiset, discharged: the expanded listings before and after unrolling are rearrangements *)
+Theorem C08_unroll_tree_perm : forall (args_of : Core.Model.leaf -> list (option Z)) env p, unroll_small_prog p ->
+  Permutation (expand (tree_of_nodes args_of (run_prog env p)))
+              (expand (tree_of_nodes args_of (apply_modifiers env 1 (run_prog env p)))).
+Proof. exact unroll_tree_perm. Qed.
+
+(* the expanded listing of the exporter's tree is, in order, the image of the Core expanded listing ... *)
+Theorem C08_expand_tree_in_order : forall (args_of : Core.Model.leaf -> list (option Z)) ns,
+  expand (tree_of_nodes args_of ns) = map (leaf_item args_of) (expanded_listing (OComp 1 ns)).
+Proof. exact expand_tree_nodes_in_order. Qed.
+
+(* ... hence a rearrangement of content x product of the enclosing counts (C06's `expanded`) *)
+Theorem C08_expand_tree_listing : forall (args_of : Core.Model.leaf -> list (option Z)) ns, ok (OComp 1 ns) ->
+  Permutation (map (leaf_item args_of) (expanded (OComp 1 ns))) (expand (tree_of_nodes args_of ns)).
+Proof. exact expand_tree_listing. Qed.
+
+(* after unrolling the export is the in-order image of the Core listing itself *)
+Theorem C08_unrolled_export_in_listing_order : forall (args_of : Core.Model.leaf -> list (option Z)) env p c,
+  to_stim (tree_of_nodes args_of (apply_modifiers env 1 (run_prog env p))) = Some c ->
+  normalise c = fold_coords [] (flat_map (fun l => match instr_of (leaf_item args_of l) with IEmit s => [s] | _ => [] end)
+                                         (map e_leaf (listing env (apply_modifiers env 1 (run_prog env p))))).
+Proof. exact unrolled_export_in_listing_order. Qed.
+
+(* the class index -> kind map is a bijection between the generated class table and the generated kinds, by class name *)
+Theorem C08_class_kind_total : forall c, cls_in_table c -> exists k, kind_of_cls c = Some k.
+Proof. exact kind_of_cls_total. Qed.
+
+Theorem C08_class_kind_injective : forall c1 c2 k, cls_in_table c1 -> cls_in_table c2 ->
+  kind_of_cls c1 = Some k -> kind_of_cls c2 = Some k -> c1 = c2.
+Proof. exact kind_of_cls_injective. Qed.
+
+Theorem C08_class_kind_onto : forall k, exists c, cls_in_table c /\ kind_of_cls c = Some k.
+Proof. exact kind_of_cls_onto. Qed.
+
+Theorem C08_class_kind_name : forall c k, kind_of_cls c = Some k -> kind_name k = cs_name (class_of c).
+Proof. exact kind_of_cls_name. Qed.
+
+Print Assumptions C08_unroll_export_same_multiset.
+Print Assumptions C08_unroll_export_same_multiset_graph.
+Print Assumptions C08_unroll_tree_perm.
+Print Assumptions C08_expand_tree_in_order.
+Print Assumptions C08_expand_tree_listing.
+Print Assumptions C08_unrolled_export_in_listing_order.
+Print Assumptions C08_class_kind_total.
+Print Assumptions C08_class_kind_injective.
+Print Assumptions C08_class_kind_onto.
+Print Assumptions C08_class_kind_name.
